@@ -50,6 +50,12 @@ def gen_cases(seed, tier):
             else:
                 k = rng.randrange(npacks)
                 ops.append((str(k), "orig" if r > 0.85 else (rand_loc(rng).hex() or "-")))
+        # strings that name the same path without being the same string, one after the other on one pack: each rewrite
+        # must still be what is read back (a location is a string, not a path)
+        if i % 4 == 1:
+            k = rng.randrange(npacks)
+            for v in rng.sample(["packs/c.jbkc", "packs//c.jbkc", "packs/./c.jbkc", "packs/c.jbkc/", "./packs/c.jbkc", "packs/c.jbkc", "PACKS/c.jbkc", "packs/c.jbkc "], 5):
+                ops.append((str(k), v.encode().hex()))
         # always end by restoring every location, so that the final dump must equal the initial one
         for k in range(npacks):
             ops.append((str(k), "orig"))
@@ -165,6 +171,9 @@ def run(tier, seed, replay=None):
                     got = [v for u, v in now.items() if prev.get(u) != v]
                     if got and got[0] != want:
                         bad = "step %d: location read back %s, expected %s" % (i, got[0], want)
+                    elif want not in now.values():
+                        bad = "step %d: the rewrite reported success but no pack description carries the new location %s (read back: %s)" % (
+                            i, want, sorted(now.values()))
                 loclens[len(loc) // 2 if loc not in ("orig", "-") else 0] = 1
             # content unchanged: whenever every out-of-file pack has its original location, the dump equals the initial one
             if not bad and all(cur_loc_is_orig.get(kk, True) or inside(kk) for kk in range(2 + c["extra"])):
